@@ -545,22 +545,130 @@ def _matches_local(cfg: CFG) -> Set[str]:
     return names
 
 
-def derive_node_kinds(project: Project, cfg: CFG) -> Set[Tuple[int, object, object, object]]:
-    """All (n, is_var, is_complex, num_fields) with which the constructor can
-    finish for a segment holding n field expressions, n in FIELD_COUNTS.
+NONNULL = Rec('<not None>')   # abstract value: some object that is not None (a str from a mandatory regex group, a compiled pattern)
+
+
+def mandatory_groups(pattern_src: str) -> Set[str]:
+    """Named groups of a (constant) regular expression that take part in every
+    match: reached from the top level through capturing groups only (not inside
+    an optional/zero-minimum repeat, a branch, a look-around or a conditional),
+    so `<match>.group(<name>)` is a str, never None.  The pattern text is data
+    read from the analysed tree; only the stdlib parser runs."""
+    try:
+        from re import _parser as sre_parse, _constants as sre_c   # Python >= 3.11
+    except ImportError:   # pragma: no cover
+        import sre_parse
+        import sre_constants as sre_c
+    try:
+        tree = sre_parse.parse(pattern_src)
+        index = dict(re.compile(pattern_src).groupindex)
+    except Exception:
+        return set()
+    by_num = {v: k for k, v in index.items()}
+    out: Set[str] = set()
+
+    def walk(seq):
+        for op, av in seq:
+            if op is sre_c.SUBPATTERN:
+                group, _add, _del, sub = av
+                if group in by_num:
+                    out.add(by_num[group])
+                walk(sub)
+            elif op in (sre_c.MAX_REPEAT, sre_c.MIN_REPEAT) or getattr(sre_c, 'POSSESSIVE_REPEAT', None) is op:
+                lo, _hi, sub = av
+                if lo >= 1:
+                    walk(sub)
+            elif getattr(sre_c, 'ATOMIC_GROUP', None) is op:
+                walk(av)
+    walk(tree)
+    return out
+
+
+def _match_object_locals(cfg: CFG, mnames: Set[str]) -> Set[str]:
+    """Locals that only ever hold one element of the list of field-expression
+    matches: `for <name> in <matches>` targets and `<name> = <matches>[<i>]`."""
+    binds: Dict[str, List[bool]] = {}
+    for n in cfg.live_nodes():
+        defs = node_defs(n)
+        if not defs:
+            continue
+        a = n.ast
+        ok = False
+        if n.kind == 'iter' and isinstance(n.stmt, ast.For) and isinstance(n.stmt.target, ast.Name) \
+                and isinstance(n.stmt.iter, ast.Name) and n.stmt.iter.id in mnames:
+            ok = True
+        elif n.kind == 'stmt' and isinstance(a, (ast.Assign, ast.AnnAssign)) and len(defs) == 1 and a.value is not None \
+                and isinstance(a.value, ast.Subscript) and isinstance(a.value.value, ast.Name) and a.value.value.id in mnames \
+                and not isinstance(a.value.slice, ast.Slice):
+            ok = True
+        for nm in defs:
+            binds.setdefault(nm, []).append(ok)
+    return {nm for nm, oks in binds.items() if oks and all(oks)}
+
+
+def _field_pattern_source(project: Project, cfg: CFG) -> Optional[str]:
+    """Source text of the compiled-regex module constant whose finditer/findall
+    result the constructor walks (None if it is not a foldable constant)."""
+    mod = cfg.func.module
+    srcs = set()
+    for n in cfg.live_nodes():
+        for c in n.calls():
+            if isinstance(c.func, ast.Attribute) and c.func.attr in ('finditer', 'findall') and isinstance(c.func.value, ast.Name):
+                v = mod.consts.get(c.func.value.id)
+                if isinstance(v, ast.Call) and len(v.args) >= 1 and project.resolve_expr(mod, v.func) == 're.compile':
+                    s = project.fold(mod, v.args[0], None, None)
+                    if isinstance(s, str):
+                        srcs.add(s)
+                        continue
+                srcs.add(None)
+    return next(iter(srcs)) if len(srcs) == 1 else None
+
+
+def derive_node_kinds(project: Project, cfg: CFG) -> Set[Tuple[int, object, object, object, tuple]]:
+    """All (n, is_var, is_complex, num_fields, extras) with which the
+    constructor can finish for a segment holding n field expressions, n in
+    FIELD_COUNTS.
 
     The constructor's CFG is walked once per n with the list of matches bound
     to n placeholder objects: tests and asserts that the mini-evaluator can
     decide on that binding (`not matches`, `len(matches) == 1`,
     `self.is_complex`) select / prune paths, every other test keeps both
     branches.  The three attributes must be assigned boolean constants /
-    evaluable integers."""
+    evaluable integers.
+
+    `extras` is a sorted tuple of (attribute, None | NONNULL) for every other
+    attribute that ends up, on that path, plainly assigned the constant None
+    or a value that cannot be None: `<match>.group(<g>)` of a group that takes
+    part in every match of the field pattern, or `re.compile(...)`.  Any other
+    value (parameters, lists that are appended to, ...) is left out: a read of
+    it evaluates to UNK."""
     mnames = _matches_local(cfg)
+    mobjs = _match_object_locals(cfg, mnames)
+    src = _field_pattern_source(project, cfg)
+    mandatory = mandatory_groups(src) if src is not None else set()
+    mod = cfg.func.module
     ev = Evaluator(cfg.func.qual)
-    out: Set[Tuple[int, object, object, object]] = set()
+    out: Set[Tuple[int, object, object, object, tuple]] = set()
     FLAGS = ('is_var', 'is_complex', 'num_fields')
+
+    def other_value(v):
+        """None | NONNULL | UNK for the value expression of `self.<other attr> = v`."""
+        if isinstance(v, ast.Constant) and v.value is None:
+            return None
+        if isinstance(v, ast.Call) and isinstance(v.func, ast.Attribute) and v.func.attr == 'group' and len(v.args) == 1 \
+                and not v.keywords and isinstance(v.args[0], ast.Constant) and v.args[0].value in mandatory:
+            r = v.func.value
+            if isinstance(r, ast.Name) and r.id in mobjs:
+                return NONNULL
+            if isinstance(r, ast.Subscript) and isinstance(r.value, ast.Name) and r.value.id in mnames and not isinstance(r.slice, ast.Slice):
+                return NONNULL
+            return UNK
+        if isinstance(v, ast.Call) and project.resolve_expr(mod, v.func) == 're.compile':
+            return NONNULL
+        return UNK
+
     for n_fields in FIELD_COUNTS:
-        init = ('unset', 'unset', 'unset')
+        init = ('unset', 'unset', 'unset', ())
         seen = {(cfg.entry, init)}
         stack = [(cfg.entry, init)]
         while stack:
@@ -578,9 +686,10 @@ def derive_node_kinds(project: Project, cfg: CFG) -> Set[Tuple[int, object, obje
                 targets = n.ast.targets if isinstance(n.ast, ast.Assign) else [n.ast.target]
                 for t in targets:
                     for sub in ([t] if not isinstance(t, (ast.Tuple, ast.List)) else t.elts):
-                        if isinstance(sub, ast.Attribute) and isinstance(sub.value, ast.Name) and sub.value.id == 'self' \
-                                and sub.attr in FLAGS:
-                            val = getattr(n.ast, 'value', None)
+                        if not (isinstance(sub, ast.Attribute) and isinstance(sub.value, ast.Name) and sub.value.id == 'self'):
+                            continue
+                        val = getattr(n.ast, 'value', None)
+                        if sub.attr in FLAGS:
                             if isinstance(n.ast, ast.AugAssign) or sub is not t or val is None:
                                 raise UnknownIdiom('%s: %s is not plainly assigned (%s)' % (cfg.func.qual, sub.attr, short(n.ast, 80)))
                             v = ev.ev(val, env)
@@ -592,6 +701,13 @@ def derive_node_kinds(project: Project, cfg: CFG) -> Set[Tuple[int, object, obje
                                 raise UnknownIdiom('%s: %s is not assigned an evaluable boolean (%s)' % (cfg.func.qual, sub.attr, short(n.ast, 80)))
                             i = FLAGS.index(sub.attr)
                             new = new[:i] + (v,) + new[i + 1:]
+                        else:
+                            if isinstance(n.ast, ast.AnnAssign) and val is None:
+                                continue   # bare annotation
+                            v = UNK if (isinstance(n.ast, ast.AugAssign) or sub is not t) else other_value(val)
+                            extras = dict(new[3])
+                            extras[sub.attr] = v
+                            new = new[:3] + (tuple(sorted(extras.items(), key=lambda kv: kv[0])),)
             elif n.kind == 'stmt' and isinstance(n.ast, ast.Assert):
                 v = ev.ev(n.ast.test, env)
                 if v is not UNK and not _truth(v):
@@ -613,20 +729,34 @@ def derive_node_kinds(project: Project, cfg: CFG) -> Set[Tuple[int, object, obje
 
 
 def kind_records(kinds) -> Dict[str, Rec]:
-    """literal / single / affix / multi / multi3 records from the derived tuples."""
-    shapes = {(n, v, c) for (n, v, c, _nf) in kinds}
+    """literal / single / affix / multi / multi3 records from the derived tuples.
+    Besides is_var / is_complex / num_fields a record carries every other
+    attribute whose None-ness is the same on all constructor paths of that kind
+    (`var_name`: None except on a single-field node)."""
+    shapes = {(n, v, c) for (n, v, c, _nf, _x) in kinds}
     if shapes != set(KIND_NAMES):
         raise UnknownIdiom('CompiledRouterNode.__init__ produces node kinds (fields, is_var, is_complex) %s; the rules know %s'
                            % (sorted(shapes), sorted(KIND_NAMES)))
     out = {}
-    for (n, v, c, nf) in sorted(kinds, key=str):
+    extras: Dict[str, List[dict]] = {}
+    for (n, v, c, nf, x) in sorted(kinds, key=str):
         name = KIND_NAMES[(n, v, c)]
+        extras.setdefault(name, []).append(dict(x))
         if name in out:
-            raise UnknownIdiom('CompiledRouterNode.__init__: num_fields of a %s node is not unique' % name)
+            if out[name].attrs.get('num_fields', 'unset') != nf:
+                raise UnknownIdiom('CompiledRouterNode.__init__: num_fields of a %s node is not unique' % name)
+            continue
         attrs = {'is_var': v, 'is_complex': c}
         if nf != 'unset':
             attrs['num_fields'] = nf
         out[name] = Rec(name, **attrs)
+    for name, variants in extras.items():
+        for attr in set().union(*variants):
+            vals = [d.get(attr, UNK) for d in variants]
+            if all(x is None for x in vals):
+                out[name].attrs[attr] = None
+            elif all(x is NONNULL for x in vals):
+                out[name].attrs[attr] = NONNULL
     return out
 
 
@@ -2026,6 +2156,36 @@ class LambdaVal:
         self.node, self.env, self.ctx = node, env, ctx
 
 
+class ModelClass:
+    """A class that is NOT part of the analysed tree -- what user code could
+    define and hand to the framework: a name, the analysed-tree classes it
+    derives from (none = a plain `class X:`), and its class attributes (plain
+    values).  Fully specified: an attribute that is neither listed nor
+    inherited from a listed base does not exist."""
+
+    def __init__(self, name: str, bases: Tuple[str, ...] = (), attrs: Optional[Dict[str, object]] = None):
+        self.name = name
+        self.bases = tuple(bases)
+        self.attrs = dict(attrs or {})
+
+    def __repr__(self):
+        return '<model class %s(%s)>' % (self.name, ', '.join(b.rsplit('.', 1)[-1] for b in self.bases))
+
+
+class ModelObj:
+    """Instance of a ModelClass (no instance attributes unless given)."""
+
+    def __init__(self, cls: ModelClass, attrs: Optional[Dict[str, object]] = None):
+        self.cls = cls
+        self.attrs = dict(attrs or {})
+
+    def __repr__(self):
+        return '<instance of %s>' % self.cls.name
+
+
+_OPAQUE = (CObj, FuncVal, ClassVal, LambdaVal, ModelClass, ModelObj)
+
+
 def _externals() -> Dict[str, object]:
     import datetime
     import math
@@ -2033,6 +2193,7 @@ def _externals() -> Dict[str, object]:
     ext: Dict[str, object] = {}
     for nm in ('int', 'float', 'str', 'len', 'bool', 'abs', 'min', 'max', 'list', 'tuple', 'dict', 'set', 'frozenset', 'sorted',
                'reversed', 'enumerate', 'range', 'zip', 'any', 'all', 'repr', 'ord', 'chr', 'sum', 'isinstance', 'bytes',
+               'issubclass', 'getattr', 'hasattr', 'type', 'object',
                'ValueError', 'TypeError', 'KeyError', 'IndexError', 'AttributeError', 'OverflowError', 'Exception',
                'ArithmeticError', 'LookupError', 'AssertionError', 'UnicodeError', 'UnicodeDecodeError', 'UnicodeEncodeError',
                'BaseException', 'RuntimeError', 'NotImplementedError', 'StopIteration', 'ZeroDivisionError', 'divmod', 'round'):
@@ -2123,7 +2284,7 @@ class Concrete:
     def truth(self, v) -> bool:
         if v is UNK:
             self._unknown('truth value of an unknown value is needed')
-        if isinstance(v, (CObj, FuncVal, ClassVal, LambdaVal)):
+        if isinstance(v, _OPAQUE):
             return True
         return bool(v)
 
@@ -2230,6 +2391,11 @@ class Concrete:
             if meth is not None:
                 return FuncVal(meth)
             self._unknown('class attribute %s.%s' % (v.cls.name, name), node)
+        if isinstance(v, (ModelClass, ModelObj)):
+            found, val = self.lookup_attr(v, name, node)
+            if not found:
+                raise CRaise('builtins.AttributeError')
+            return val
         for t, names in _METHODS.items():
             if isinstance(v, t) and not isinstance(v, bool):
                 if (names is None and hasattr(t, name) and not name.startswith('_')) or (names is not None and name in names):
@@ -2243,7 +2409,7 @@ class Concrete:
         v = self.ev(ctx, e.operand, env)
         if isinstance(e.op, ast.Not):
             return not self.truth(v)
-        if v is UNK or isinstance(v, (CObj, FuncVal, ClassVal)):
+        if v is UNK or isinstance(v, _OPAQUE):
             self._unknown('arithmetic on an unknown value', e)
         if isinstance(e.op, ast.USub):
             return self._guard(lambda: -v)
@@ -2269,7 +2435,7 @@ class Concrete:
             ast.BitAnd: lambda a, b: a & b, ast.BitXor: lambda a, b: a ^ b}
 
     def _plain(self, v, node):
-        if v is UNK or isinstance(v, (CObj, FuncVal, ClassVal, LambdaVal)) or (isinstance(v, tuple) and v and v[0] in ('$bound', '$ho')):
+        if v is UNK or isinstance(v, _OPAQUE) or (isinstance(v, tuple) and v and v[0] in ('$bound', '$ho')):
             self._unknown('operator applied to a value that is not plain data', node)
         return v
 
@@ -2295,9 +2461,10 @@ class Concrete:
             if isinstance(op, (ast.Is, ast.IsNot)):
                 if left is UNK or right is UNK:
                     self._unknown('identity test on an unknown value', e)
-                r = (left is right) if isinstance(op, ast.Is) else (left is not right)
+                same = (left is right) or (isinstance(left, ClassVal) and isinstance(right, ClassVal) and left.cls is right.cls)
+                r = same if isinstance(op, ast.Is) else not same
                 if not (left is None or right is None or isinstance(left, bool) or isinstance(right, bool)
-                        or isinstance(left, (CObj, ClassVal)) or isinstance(right, (CObj, ClassVal))):
+                        or isinstance(left, (CObj, ClassVal, ModelClass, ModelObj)) or isinstance(right, (CObj, ClassVal, ModelClass, ModelObj))):
                     self._unknown('identity test between two data values (interning is an implementation detail)', e)
             else:
                 self._plain(left, e)
@@ -2439,10 +2606,20 @@ class Concrete:
             r = self.call_hook(fn, args, kwargs, node)
             if r is not NotImplemented:
                 return r
+        if fn is getattr or fn is hasattr:
+            return self._b_getattr(fn, args, kwargs, node)
+        if fn is type and len(args) == 1 and not kwargs:
+            return self._b_type(args[0], node)
+        if (fn is isinstance or fn is issubclass) and len(args) == 2 and not kwargs and self._about_classes(args):
+            return self._b_isinstance(fn, args[0], args[1], node)
         if isinstance(fn, FuncVal):
             return self.call_func(fn.func, ([fn.recv] if fn.recv is not None else []) + list(args), kwargs)
         if isinstance(fn, ClassVal):
             return self.instantiate(fn.cls, args, kwargs)
+        if isinstance(fn, ModelClass):
+            if args or kwargs:
+                self._unknown('constructor arguments of the model class %s' % fn.name, node)
+            return ModelObj(fn)
         if isinstance(fn, LambdaVal):
             return self.ev(fn.ctx, fn.node.body, self._bind_args(fn.node.args, fn.ctx, args, kwargs, fn.env, fn.node))
         if isinstance(fn, tuple) and fn and fn[0] == '$ho':
@@ -2479,9 +2656,162 @@ class Concrete:
             return self._guard(fn, *args, **kwargs)
         self._unknown('call of a value that is not modelled', node)
 
+    # ------------------------------------------------------------ getattr / type / isinstance over tree and model classes
+    def _tree_bases_known(self, qual: str) -> bool:
+        """Every class in the MRO of the analysed-tree class `qual` is itself in
+        the analysed tree (so an attribute none of them defines does not exist,
+        dunder/object attributes aside)."""
+        for q in self.p.mro(qual):
+            c = self.p.classes.get(q)
+            if c is None:
+                return False
+            for b in c.node.bases:
+                bq = self.p.resolve_expr(c.module, b)
+                if bq != 'builtins.object' and bq not in self.p.classes:
+                    return False
+        return True
+
+    def _tree_class_attr(self, qual: str, name: str):
+        c, expr = self.p.lookup_class_attr(qual, name)
+        if expr is not None:
+            return True, self.ev((c.module, None), expr, {})
+        meth = self.p.lookup_method(qual, name)
+        if meth is not None:
+            return True, FuncVal(meth)
+        return False, None
+
+    def lookup_attr(self, o, name: str, node=None) -> Tuple[bool, object]:
+        """(found, value) for the attribute `name` of a class / instance value,
+        the way getattr() looks it up (instance, then class, then bases)."""
+        if name.startswith('__'):
+            self._unknown('special attribute %s' % name, node)
+        if isinstance(o, ModelObj):
+            if name in o.attrs:
+                return True, o.attrs[name]
+            found, val = self.lookup_attr(o.cls, name, node)
+            if found and isinstance(val, FuncVal) and val.recv is None:
+                val = FuncVal(val.func, o)
+            return found, val
+        if isinstance(o, ModelClass):
+            if name in o.attrs:
+                return True, o.attrs[name]
+            for b in o.bases:
+                found, val = self._tree_class_attr(b, name)
+                if found:
+                    return True, val
+                if not self._tree_bases_known(b):
+                    self._unknown('attribute %s may come from a base of %s outside the analysed tree' % (name, b), node)
+            return False, None
+        if isinstance(o, ClassVal):
+            found, val = self._tree_class_attr(o.cls.qual, name)
+            if found:
+                return True, val
+            if not self._tree_bases_known(o.cls.qual):
+                self._unknown('attribute %s may come from a base of %s outside the analysed tree' % (name, o.cls.qual), node)
+            return False, None
+        if isinstance(o, CObj):
+            v = self.getattr(o, name, node)
+            return True, v     # UNK when no interpreted code has set it: the caller must not branch on it
+        self._unknown('getattr() on a %s value' % type(o).__name__, node)
+
+    def _b_getattr(self, fn, args, kwargs, node):
+        if kwargs or not (2 <= len(args) <= (3 if fn is getattr else 2)) or not isinstance(args[1], str):
+            self._unknown('call of %s' % fn.__name__, node)
+        found, val = self.lookup_attr(args[0], args[1], node)
+        if fn is hasattr:
+            if found and val is UNK:
+                self._unknown('hasattr() of an attribute no interpreted code has set', node)
+            return found
+        if found:
+            return val
+        if len(args) == 3:
+            return args[2]
+        raise CRaise('builtins.AttributeError')
+
+    def _b_type(self, v, node):
+        if isinstance(v, CObj):
+            return ClassVal(v.cls)
+        if isinstance(v, ModelObj):
+            return v.cls
+        if v is UNK or isinstance(v, _OPAQUE) or (isinstance(v, tuple) and v and v[0] in ('$bound', '$ho', '$exc')):
+            self._unknown('type() of a class / function value (metaclasses are not modelled)', node)
+        return type(v)
+
+    @staticmethod
+    def _about_classes(args) -> bool:
+        def opaque(x):
+            return isinstance(x, (CObj, ClassVal, ModelClass, ModelObj))
+        spec = args[1] if isinstance(args[1], tuple) else (args[1],)
+        return opaque(args[0]) or any(opaque(d) for d in spec)
+
+    def _is_subclass(self, c, d, node) -> bool:
+        """c, d: ClassVal | ModelClass | Python type."""
+        if d is object:
+            return True
+        if isinstance(c, type):
+            return issubclass(c, d) if isinstance(d, type) else False
+        if isinstance(d, type):
+            if d is type:
+                self._unknown('metaclass test', node)
+            quals = [c.cls.qual] if isinstance(c, ClassVal) else list(c.bases)
+            for q in quals:
+                r = self.p.is_subclass(q, '%s.%s' % (d.__module__, d.__name__))
+                if r is None:
+                    self._unknown('whether %s derives from %s is not known' % (q, d.__name__), node)
+                if r:
+                    return True
+            return False
+        if isinstance(c, ModelClass):
+            if c is d:
+                return True
+            if isinstance(d, ModelClass):
+                return False
+            quals = list(c.bases)
+        else:
+            if isinstance(d, ModelClass):
+                return False
+            quals = [c.cls.qual]
+        for q in quals:
+            r = self.p.is_subclass(q, d.cls.qual)
+            if r is None:
+                self._unknown('whether %s derives from %s is not known' % (q, d.cls.qual), node)
+            if r:
+                return True
+        return False
+
+    def _b_isinstance(self, fn, v, spec, node) -> bool:
+        specs = spec if isinstance(spec, tuple) else (spec,)
+        for d in specs:
+            if not isinstance(d, (ClassVal, ModelClass, type)):
+                self._unknown('%s() against a value that is not a class' % fn.__name__, node)
+        is_class = isinstance(v, (ClassVal, ModelClass, type))
+        if fn is issubclass:
+            if not is_class:
+                raise CRaise('builtins.TypeError')
+            return any(self._is_subclass(v, d, node) for d in specs)
+        if v is UNK or isinstance(v, (FuncVal, LambdaVal)) or (isinstance(v, tuple) and v and v[0] in ('$bound', '$ho', '$exc')):
+            self._unknown('isinstance() of a function / unknown value', node)
+        out = False
+        for d in specs:
+            if d is object:
+                out = True
+            elif d is type:
+                out = out or is_class
+            elif is_class:
+                # a class object is an instance of its metaclass only
+                if isinstance(d, ClassVal) and self.p.is_subclass(d.cls.qual, 'builtins.type') is not False:
+                    self._unknown('isinstance(<class>, <possible metaclass>)', node)
+            elif isinstance(v, CObj):
+                out = out or self._is_subclass(ClassVal(v.cls), d, node)
+            elif isinstance(v, ModelObj):
+                out = out or self._is_subclass(v.cls, d, node)
+            else:
+                out = out or self._is_subclass(type(v), d, node)
+        return out
+
     def _data(self, v, node):
         """Arguments handed to library code must be plain data (nothing that could call back)."""
-        if v is UNK or isinstance(v, (CObj, FuncVal, ClassVal, LambdaVal)):
+        if v is UNK or isinstance(v, _OPAQUE):
             self._unknown('a non-data value is passed to library code', node)
         if isinstance(v, tuple) and v and v[0] in ('$bound', '$ho'):
             self._unknown('a bound method is passed to library code', node)
